@@ -1123,6 +1123,8 @@ class SpectrumResult:
 
     def __getattr__(self, name: str) -> Any:
         """Lazy computation and caching of spectral properties."""
+        if name.startswith("_"):
+            raise AttributeError(name)
         if name in self._cache:
             return self._cache[name]
 
